@@ -175,6 +175,31 @@ end SFV.Loop
 
 namespace SFV.Loop
 
+/-! ### `LoopCombinatorStep.run` with one input port, as a whole: checklist, the combinator's numbering, output log, status -/
+
+structure LCSt where
+  c : CSt := {}
+  cnt : Counters := fun _ => none      -- the LoopCombinator's `iteration_map`
+  out : List Tag := []                 -- tags of the tokens put on the output port
+  status : Status := .skipped
+  terminated : Option Status := none   -- the step left its loop and terminated with this status
+
+def lcstep (s : LCSt) (e : CEv) : LCSt :=
+  if !s.c.reading then s else
+  let s1 : LCSt := match e with
+    | .data tag => { s with cnt := (number s.cnt tag).1, out := s.out ++ [(number s.cnt tag).2] }   -- one item: every token is a combination
+    | .iterTerm _ => s
+    | .term st => { s with status := reduce2 s.status st }
+  let s2 : LCSt := { s1 with c := cstep s.c e }
+  -- one port: when it is no longer read `input_tasks` is empty and the step terminates
+  if !s2.c.reading then { s2 with terminated := some (getStatus s2.status s2.out.isEmpty) } else s2
+
+def lcrun (es : List CEv) : LCSt := es.foldl lcstep {}
+
+end SFV.Loop
+
+namespace SFV.Loop
+
 /-! ### the closed loop of one instance: combinator → loop-when → body → back edge -/
 
 /-- one trip: the combinator numbers the arrival; the loop-when step evaluates the condition on the numbered inputs:
